@@ -14,14 +14,14 @@ from ..model import qual
 from ..symx import Expander, TupleV, ListV
 from ..anf import R, Unsupported
 from .. import anf
-from .common import memo_obligations, dtype_hazard_obligations, struct_ob, formula_ob, guard, last_return, U, purity_obligations
+from .common import cancellation_obligations, memo_obligations, dtype_hazard_obligations, struct_ob, formula_ob, guard, last_return, U, purity_obligations
 from ..report import AnalysisError, Ob
 from ..term import Resolver, pmatch, find_all, abstract, anf_of
 from ..seq import Layouts, UNKNOWN, show
 
 COV = "inference/gp/covariance.py"
 MEAN = "inference/gp/mean.py"
-FLOORS = {"float-arithmetic": 2, "builder-vs-pairwise": 4, "value-sibling": 4, "gradient-is-derivative": 9, "changepoint-siblings": 4,
+FLOORS = {"difference-before-square": 1, "float-arithmetic": 2, "builder-vs-pairwise": 4, "value-sibling": 4, "gradient-is-derivative": 9, "changepoint-siblings": 4,
           "composition-order": 4, "mean-sibling": 3, "mean-gradient": 3, "composite-structure": 3,
           "changepoint-shared-inplace": 3, "arguments-not-mutated": 60, "overflow-safe": 8}
 
@@ -196,6 +196,7 @@ def run(prog, tier):
         hier += [prog.cls(b)] + prog.subclasses(b)
     obs.extend(purity_obligations(prog, "arguments-not-mutated", hier))
 
+    obs.extend(cancellation_obligations(prog, "difference-before-square", ['inference/gp/covariance.py']))
     obs.extend(dtype_hazard_obligations(prog, "float-arithmetic", ['inference/gp/covariance.py', 'inference/gp/mean.py']))
 
     obs.extend(memo_obligations(prog, "cache-key", [c for b in ("CovarianceFunction", "MeanFunction") for c in [prog.cls(b)] + prog.subclasses(b)]))
